@@ -43,6 +43,7 @@ type wConnAcct struct {
 }
 
 type WireOracles struct {
+	muted        bool       // the scenario makes connections indistinguishable for an observer (e.g. one-byte first destination IDs that repeat from dial to dial): the per-packet oracles are off
 	refusedHello bool       // the scenario makes the server refuse the ClientHello (e.g. a wrong initial_source_connection_id)
 	forged       [2][]int64 // 1-RTT packet numbers of forged packets played to the client (0) / server (1)
 	w            *World
@@ -130,6 +131,9 @@ func (o *WireOracles) peerTPs(a *wConnAcct, dir int) ([]TapTP, bool) {
 }
 
 func (o *WireOracles) onSend(rec *DgramRec, data []byte) {
+	if o.muted {
+		return
+	}
 	now := o.w.NowNS()
 	for _, p := range rec.Pkts {
 		if p.Type == TapUnknown && p.Reset {
@@ -320,6 +324,9 @@ func ackCovers(f *TapFrame, pn int64) bool {
 }
 
 func (o *WireOracles) onDeliver(rec *DgramRec, data []byte, damaged bool) {
+	if o.muted {
+		return
+	}
 	now := o.w.NowNS()
 	for i, p := range rec.Pkts {
 		if !p.Opened || p.Conn == nil || p.Conn.Shadow || rec.PktState[i] == 2 {
@@ -374,6 +381,9 @@ func (o *WireOracles) onDeliver(rec *DgramRec, data []byte, damaged bool) {
 
 // Finish runs the end-of-history wire checks.
 func (o *WireOracles) Finish() {
+	if o.muted {
+		return
+	}
 	for _, c := range o.w.Tap.Conns {
 		for d := 0; d < 2; d++ {
 			for s := 0; s < 3; s++ {
